@@ -16,6 +16,7 @@ import (
 	"fmt"
 	"os"
 	"path/filepath"
+	"strings"
 	"syscall"
 	"time"
 
@@ -72,9 +73,15 @@ func runHistory(in Sx) (out Sx) {
 
 func c02History(in Sx) Sx {
 	A, S1, S2 := sxEntries(in.L[0]), sxEntries(in.L[1]), sxEntries(in.L[2])
-	filter := 0
+	filter, differ, merge := 0, 0, false
 	if len(in.L) > 3 {
 		filter = in.L[3].Int()
+	}
+	if len(in.L) > 4 {
+		differ = in.L[4].Int()
+	}
+	if len(in.L) > 5 {
+		merge = in.L[5].IsTrue()
 	}
 	work := WorkDir("c02h-")
 	defer os.RemoveAll(work)
@@ -101,7 +108,7 @@ func c02History(in Sx) Sx {
 		if err != nil {
 			return L(N(0xffff), S("newfs"))
 		}
-		res := RunTransfer(TransferCfg{Src: fs, Dest: dest, Differ: fsutil.DiffMetadata, Notify: true, Filter: c05Filter(filter), Timeout: 15 * time.Second})
+		res := RunTransfer(TransferCfg{Src: fs, Dest: dest, Differ: fsutil.DiffType(differ), Merge: merge, Notify: true, Filter: c05Filter(filter), Timeout: 15 * time.Second})
 		failed := res.SendErr != nil || res.RecvErr != nil || res.Hung
 		after, err := SnapshotRaw(dest, true)
 		if err != nil {
@@ -137,12 +144,20 @@ func c02EmitHistory(g *Gen, A, S1, S2 []flatEntry, cls string) bool {
 
 // ... through the receiver's Filter (ReceiveOpt.Filter) selected by code (c05Filter)
 func c02EmitHistoryF(g *Gen, filter int, A, S1, S2 []flatEntry, cls string) bool {
+	return c02EmitHistoryO(g, filter, 0, false, A, S1, S2, cls)
+}
+
+// ... with ReceiveOpt.Differ (0 DiffMetadata, 1 DiffNone) and ReceiveOpt.Merge
+func c02EmitHistoryO(g *Gen, filter, differ int, merge bool, A, S1, S2 []flatEntry, cls string) bool {
 	c02OnDisk(A)
 	c02OnDisk(S1)
 	c02OnDisk(S2)
 	in := L(entriesSx(A), entriesSx(S1), entriesSx(S2))
 	if filter != 0 {
 		in = L(entriesSx(A), entriesSx(S1), entriesSx(S2), NI(filter))
+	}
+	if differ != 0 || merge {
+		in = L(entriesSx(A), entriesSx(S1), entriesSx(S2), NI(filter), NI(differ), Bool(merge))
 	}
 	out := runHistory(in)
 	if len(out.L) == 2 && out.L[0].Kind == 'n' && out.L[0].U64() == 0xfffe {
@@ -305,6 +320,89 @@ func c02HistoryFiltered(g *Gen) {
 	g.Note("history_filtered_cases", n)
 }
 
+// c02HistoryRemovals: histories whose second source state REMOVES names — a file, a symbolic
+// link, a device, a whole directory tree, a rename (old name gone, new name there), a directory
+// replaced by a file — under every combination of ReceiveOpt.Differ (DiffMetadata / DiffNone)
+// and ReceiveOpt.Merge: without Merge the destination must equal the source after every
+// synchronisation, whatever the differ (DiffNone re-writes everything, it does not keep what the
+// source no longer has), and the removals are notified; with Merge nothing is removed.
+func c02HistoryRemovals(g *Gen) {
+	n := 0
+	mk := func() []flatEntry {
+		return []flatEntry{
+			{&types.Stat{Path: "a", Mode: 0644, ModTime: 1600000001e9}, []byte("aa")},
+			{&types.Stat{Path: "c", Mode: uint32(os.ModeDevice|os.ModeCharDevice) | 0600, Devmajor: 1, Devminor: 3, ModTime: 1600000002e9}, nil},
+			{&types.Stat{Path: "d", Mode: uint32(os.ModeDir | 0755), ModTime: 1700000000e9}, nil},
+			{&types.Stat{Path: "d/f", Mode: 0640, ModTime: 1600000003e9}, []byte("df")},
+			{&types.Stat{Path: "d/s", Mode: uint32(os.ModeDir | 0750), ModTime: 1700000001e9}, nil},
+			{&types.Stat{Path: "d/s/g", Mode: 0600, ModTime: 1600000004e9}, []byte("g")},
+			{&types.Stat{Path: "d/s/l", Mode: uint32(os.ModeSymlink | 0777), Linkname: "g", ModTime: 1600000005e9}, nil},
+			{&types.Stat{Path: "k", Mode: 0644, ModTime: 1600000006e9}, []byte("keep")},
+			{&types.Stat{Path: "l", Mode: uint32(os.ModeSymlink | 0777), Linkname: "a", ModTime: 1600000007e9}, nil},
+		}
+	}
+	del := func(es []flatEntry, pred func(p string) bool) []flatEntry {
+		var out []flatEntry
+		for _, e := range es {
+			if !pred(e.St.Path) {
+				out = append(out, e)
+			}
+		}
+		return out
+	}
+	for edit := 0; edit < 7; edit++ {
+		for differ := 0; differ < 2; differ++ {
+			for _, merge := range []bool{false, true} {
+				for start := 0; start < 2; start++ {
+					S1, S2 := mk(), mk()
+					switch edit {
+					case 0: // a file and a symbolic link removed
+						S2 = del(S2, func(p string) bool { return p == "a" || p == "l" })
+					case 1: // a directory tree removed
+						S2 = del(S2, func(p string) bool { return p == "d" || strings.HasPrefix(p, "d/") })
+					case 2: // an inner tree and a device removed
+						S2 = del(S2, func(p string) bool { return p == "c" || p == "d/s" || strings.HasPrefix(p, "d/s/") })
+					case 3: // rename: a -> b (same stat, same bytes)
+						S2[0].St.Path = "b"
+					case 4: // rename of a directory tree d -> e
+						for _, e := range S2 {
+							if e.St.Path == "d" || strings.HasPrefix(e.St.Path, "d/") {
+								e.St.Path = "e" + e.St.Path[1:]
+							}
+						}
+					case 5: // a directory tree replaced by a file of the same name
+						S2 = del(S2, func(p string) bool { return strings.HasPrefix(p, "d/") })
+						for _, e := range S2 {
+							if e.St.Path == "d" {
+								e.St.Mode, e.St.ModTime, e.Content = 0644, 1600000009e9, []byte("now a file")
+							}
+						}
+					case 6: // everything removed
+						S2 = nil
+					}
+					sortEntries(S2)
+					var A []flatEntry
+					if start == 1 {
+						A = []flatEntry{{&types.Stat{Path: "stale", Mode: uint32(os.ModeDir | 0700), ModTime: 1700000005e9}, nil},
+							{&types.Stat{Path: "stale/x", Mode: 0600, ModTime: 1600000008e9}, []byte("x")}}
+					}
+					cls := "history-names-removed"
+					if differ == 1 {
+						cls += "+diffnone"
+					}
+					if merge {
+						cls += "+merge"
+					}
+					if c02EmitHistoryO(g, 0, differ, merge, A, S1, S2, cls) {
+						n++
+					}
+				}
+			}
+		}
+	}
+	g.Note("history_removal_cases", n)
+}
+
 func sortEntries(es []flatEntry) {
 	for i := 1; i < len(es); i++ {
 		for j := i; j > 0 && fsutil.ComparePath(es[j-1].St.Path, es[j].St.Path) > 0; j-- {
@@ -344,7 +442,16 @@ func c02HistoryRandom(g *Gen, n int) {
 			filter = 1 + r.Intn(4)
 			cls += "+filter"
 		}
-		if !c02EmitHistoryF(g, filter, lists[0], lists[1], lists[2], cls) {
+		differ, merge := 0, false
+		if r.Chance(25) {
+			differ = 1
+			cls += "+diffnone"
+		}
+		if r.Chance(15) {
+			merge = true
+			cls += "+merge"
+		}
+		if !c02EmitHistoryO(g, filter, differ, merge, lists[0], lists[1], lists[2], cls) {
 			skipped++
 		}
 	}
